@@ -145,7 +145,7 @@ class CConc:
         self.dom = dom
         self.vn = var_names(list(dom), rng, "str")
         self.inv = {c: t for t, c in self.vn.items()}
-        self.sn = {v: state_names(dom[v], rng, rng.choice(["str", "int", "range", "tuple", "mixed"])) for v in dom}
+        self.sn = {v: state_names(dom[v], rng, rng.choice(["str", "int", "range", "perm", "tuple", "mixed"])) for v in dom}
 
     def names(self, v):
         return [self.sn[v][s] for s in self.dom[v]]
